@@ -6,6 +6,13 @@ Nothing here calls a loader of the library: the embedded strings
 under test are taken as data and read with regular expressions.  The form-factor
 equations are evaluated with math.exp on Python floats.
 
+Source text is private to the library.  When crystal_structure.py does not spell
+the list as one literal slot per line, the public module attribute
+`crystal_structure.crystal_structures` (position = Z) is the data instead - still
+independent of crystal_structure.init, the loader the property is about; the
+literal of the Z = 0 radius has no public counterpart and becomes "not judged".
+`Ancillary.routes` records the route per group.
+
 Model fields
 
     radius[Z]            (label, r, dr)   first spin state of every numbered Cordero row
@@ -35,6 +42,7 @@ class Ancillary(object):
         import periodictable
         from periodictable import covalent_radius, crystal_structure, xsf, magnetic_ff
         self.package_dir = os.path.dirname(os.path.abspath(periodictable.__file__))
+        self.routes = {}        # group -> (route, note): which reading of the data the model is built on
         self._read_cordero(covalent_radius)
         self._read_structures(crystal_structure)
         self._read_lines(xsf.spectral_lines_data)
@@ -66,26 +74,56 @@ class Ancillary(object):
             if last in self.radius:
                 raise ValueError('Cordero row for Z=%d appears twice' % last)
             self.radius[last] = (m.group(2), r, dr)
-        # the neutron's radius is a literal of the loader, not a table row
+        # the neutron's radius is a literal of the loader, not a table row: readable from the source text only
+        # (private; optional).  None = not readable: the Z = 0 radius is then not judged (no public data holds it).
         self.neutron_radius = None
         try:
             with open(module.__file__.replace('.pyc', '.py'), encoding='latin-1') as fid:
                 src = fid.read()
-            m = re.search(r'table\[0\]\.covalent_radius\s*=\s*(%s)' % _NUM, src)
-            if m:
-                self.neutron_radius = float(m.group(1))
-        except OSError:
+            hits = set(re.findall(r'table\[0\]\.covalent_radius\s*=\s*(%s)' % _NUM, src))
+            if len(hits) == 1:
+                self.neutron_radius = float(hits.pop())
+        except Exception:  # noqa
             pass
+        self.routes['neutron_radius'] = (('source', 'literal assigned to table[0].covalent_radius in covalent_radius.py')
+                                         if self.neutron_radius is not None else
+                                         ('unavailable', 'no single literal "table[0].covalent_radius = <number>" in the '
+                                          'source of covalent_radius.py; the radius of Z = 0 is not judged'))
 
     # -- crystal structures ----------------------------------------------
     def _read_structures(self, module):
+        """Slot Z of the crystal_structures list.  First choice: the list literal in the module SOURCE (with the
+        '#Sym' comments); source text is private to the library, so when it is not written that way the public
+        module attribute `crystal_structure.crystal_structures` is taken as the data (deep-copied now, before
+        any loader under test runs).  `self.routes['structure']` says which."""
+        try:
+            self._read_structures_from_source(module)
+            self.routes['structure'] = ('source', 'crystal_structures list literal read from the source text of '
+                                        'crystal_structure.py')
+            return
+        except Exception as exc:  # noqa - refactored source: fall back to the public data
+            why = '%s: %s' % (type(exc).__name__, str(exc)[:120])
+        live = getattr(module, 'crystal_structures', None)
+        if not isinstance(live, (list, tuple)) or not live:
+            raise ValueError('crystal structures: source not readable (%s) and no public crystal_structures list' % why)
+        self.structure = {}
+        self.structure_label = {}
+        for Z, value in enumerate(live):
+            if value is not None and not isinstance(value, dict):
+                raise ValueError('crystal_structures[%d] is %r, neither None nor a dict' % (Z, value))
+            self.structure[Z] = None if value is None else dict(value)
+        self.routes['structure'] = ('data', 'source-text route not available (%s); slots taken from the public list '
+                                    'crystal_structure.crystal_structures (position = Z), copied before any loader '
+                                    'of this process ran' % why)
+
+    def _read_structures_from_source(self, module):
         with open(module.__file__.replace('.pyc', '.py'), encoding='latin-1') as fid:
             src = fid.read()
         m = re.search(r'^crystal_structures\s*=\s*\[\\?\s*\n(.*?)^def ', src, re.S | re.M)
         if not m:
             raise ValueError('crystal_structures list not found in the module source')
-        self.structure = {}
-        self.structure_label = {}
+        structure = {}
+        structure_label = {}
         slot = re.compile(r'^\s*(None|\{[^}]*\})\s*[,\]]\s*#\s*(\w+)\s*$')
         item = re.compile(r"'([^']+)'\s*:\s*(?:'([^']*)'|(%s))" % _NUM)
         Z = 0
@@ -103,9 +141,12 @@ class Ancillary(object):
                     value[k] = text if num == '' else float(num)
                 if not value:
                     raise ValueError('empty crystal structure %r' % line)
-            self.structure[Z] = value
-            self.structure_label[Z] = s.group(2)
+            structure[Z] = value
+            structure_label[Z] = s.group(2)
             Z += 1
+        if not structure:
+            raise ValueError('no crystal structure slot read from the module source')
+        self.structure, self.structure_label = structure, structure_label
 
     # -- emission lines -----------------------------------------------------
     def _read_lines(self, text):
